@@ -50,6 +50,16 @@ def base_request(**kw):
     return r
 
 
+def _numbers_in_rate_modifier(text):
+    import tomlkit
+
+    doc = tomlkit.loads(text)
+    tab = doc["chemistry"]["rate_modifier"]
+    for k in list(tab):
+        tab[k] = float(str(tab[k]))
+    return tomlkit.dumps(doc)
+
+
 def to_cli(req, solver, device, method, style="plain"):
     """option strings as a user would type them; style 'spaced' puts blanks around separators"""
     j = ", " if style == "spaced" else ","
@@ -97,6 +107,11 @@ CASES = {
     "example-empty": (lambda: example_request("empty"), ["dense"], "plain"),
     "spaced-lists": (lambda: dict(example_request("primordial"), cooling=["CIC_HI", "RC_HII"]), ["dense"], "spaced"),
     "extra-species+modifiers": (lambda: dict(example_request("minimal"), allowed=["H", "C2", "C", "CH", "H2", "C2H"], extra=["H2", "C2H"], rate_modifier={4894: "1.5e-10*zeta"}, ode_modifier={"H": {"factors": ["2.0"], "reactants": [["C", "CH"]]}}), ["dense"], "plain"),
+    # a network file without reaction indices (numbered 0, 1, ... in joining order) with a modifier on reaction 0
+    "unindexed-krome-modifier-0": (lambda: base_request(files=["u.krome"], formats=["krome"], elements=["H", "C"], pseudo_elements=[], rate_modifier={0: "1.25e-10", 2: "3.5e-11*Tgas"},
+                                                        _files={"u.krome": "@format:R,R,P,P,Tmin,Tmax,rate\nC,C,C2,,NONE,NONE,2.5d-10*T32\nC,H,CH,,NONE,NONE,1d-17\nCH,H,C,H2,10,1d4,1.1d-10*T32**0.5\n"}), ["dense"], "plain"),
+    # the user rewrites the modifier values of the configuration file as TOML numbers (0.0 switches a reaction off)
+    "modifier-toml-numbers": (lambda: dict(example_request("minimal"), rate_modifier={4894: "0.0", 6599: "2.5e-10"}, _edit_config=_numbers_in_rate_modifier), ["dense"], "plain"),
     # modifier terms that name a species twice (quadratic terms) and several terms per species; duplicated list options
     "repeated-dependencies": (lambda: dict(example_request("minimal"), rate_modifier={4894: "1.5e-10*zeta"},
                                            ode_modifier={"C2": {"factors": ["zeta", "-0.5*zeta"], "reactants": [["C", "C"], ["C2", "C2", "H"]]}, "C": {"factors": ["-2.0*zeta"], "reactants": [["C", "C"]]}}), ["dense"], "plain"),
@@ -163,8 +178,12 @@ def _analyse(name, tier, res):
     req = builder()
     ice = req.pop("_ice", False)
     ucl = req.pop("_ucl", False)
+    lit = req.pop("_files", None)
+    edit = req.pop("_edit_config", None)
     workfiles = []
-    if ucl:
+    if lit:
+        workfiles += [{"name": n, "content": c} for n, c in lit.items()]
+    elif ucl:
         workfiles.append({"name": "up.ucl", "content": UCL_UPPER_FILE})
     elif ice:
         workfiles.append({"name": "ice.naunet", "content": ICE_FILE})
@@ -175,7 +194,7 @@ def _analyse(name, tier, res):
         tgt = proj.TARGETS[kind]
         tdir = tgt["dir"]
         tag = f"{name}/{tdir}"
-        cli = proj.render_cli(f"cli-{name}", workfiles, to_cli(req, tgt["solver"], tgt["device"], tgt["method"], style), tdir)
+        cli = proj.render_cli(f"cli-{name}", workfiles, to_cli(req, tgt["solver"], tgt["device"], tgt["method"], style), tdir, edit_config=edit)
         api = proj.render(f"api-{name}", to_api_spec(req, tgt, workfiles))
         if not api.ok or not api.target_ok(tdir):
             res["notes"].append(f"{tag}: API rendering refused: {api.meta.get('error') or api.meta['targets'].get(tdir)}")
